@@ -100,6 +100,10 @@ func content(name string) []byte {
 		return []byte("xy")
 	case "bx":
 		return []byte("bx")
+	case "lf":
+		return []byte("line one\nline two\n")
+	case "crlf":
+		return []byte("line one\r\nline two\r\n")
 	case "k4":
 		return pat(4096)
 	case "k4e":
@@ -154,8 +158,8 @@ func c04States() []map[string]string {
 	return []map[string]string{
 		base,
 		clone(base, map[string]string{"c": "k4e", "d/ab": "k64m", "big70": "k70m", "big1m": "m1e"}),    // single-byte changes, also beyond 4 KiB / 64 KiB / 1 MiB
-		clone(base, map[string]string{"a": "y", "b": "x"}),                                             // a and b swapped... (b was y, a was x)
-		clone(base, map[string]string{"d/ab": "k64e", "e": "x", "a": "empty"}),                         // last byte; empty <-> non-empty
+		clone(base, map[string]string{"a": "y", "b": "x", "da": "lf"}),                                 // a and b swapped; da = a text with LF line ends
+		clone(base, map[string]string{"d/ab": "k64e", "e": "x", "a": "empty", "da": "crlf"}),           // last byte; empty <-> non-empty; da = the same text with CRLF line ends
 		clone(base, map[string]string{"a": "bx", "ab": "x", "abc": "empty", "d/a": "bx", "d/ab": "x"}), // path/content boundary: "a"+"bx" vs "ab"+"x"
 		base, // reverted: every digest must be the one of the first state again
 	}
